@@ -16,7 +16,7 @@ import (
 	"github.com/bio-routing/bio-rd/zzverif/vh"
 )
 
-const zvC35Max = 5
+const zvC35Max = 7
 
 // zvC35Graph: node ids 0..M-1; ids 0..Listed-1 are handed to NewTopology in the
 // node list, the remaining ids only occur as edge end points. W[a][b] = -1
@@ -116,6 +116,7 @@ func zvC35BF(g *zvC35Graph, lim, src int) [zvC35Max]int {
 type zvC35Stats struct {
 	evals, nontrivial                                                    int
 	unreachable, improved, zeroDist, unlistedEdge, selfloop, viaUnlisted int
+	longPath                                                             int
 	nodes                                                                []Node // scratch (NewTopology copies what it needs)
 	edges                                                                []Edge
 }
@@ -129,6 +130,7 @@ func (s *zvC35Stats) flush(r *vh.Run) {
 	r.Count("graph_with_edge_to_unlisted_node", s.unlistedEdge)
 	r.Count("graph_with_selfloop", s.selfloop)
 	r.Count("unlisted_transit_would_shorten", s.viaUnlisted)
+	r.Count("path_of_four_or_more_edges", s.longPath)
 	*s = zvC35Stats{nodes: s.nodes, edges: s.edges}
 }
 
@@ -250,6 +252,9 @@ func zvC35One(r *vh.Run, st *zvC35Stats, fam string, g *zvC35Graph, src int) {
 		}
 		if bad == "" && sum != p.Distance {
 			bad = fmt.Sprintf("edge weights sum to %d, Distance is %d", sum, p.Distance)
+		}
+		if bad == "" && len(p.Edges) >= 4 {
+			st.longPath++
 		}
 		if bad != "" {
 			r.Violation(sig("path"), g.toCase(fam, src), "SPT(%s)[%s]: %s", zvC35Nodes[src].Name, zvC35Nodes[n].Name, bad)
@@ -394,6 +399,15 @@ func zvC35Families(thorough bool) []*zvC35Family {
 	fs = append(fs, &zvC35Family{Name: "n5_unit_weights", M: 5, Listed: 5, Pairs: zvC35AllPairs(5, false), Ws: []int{1}})
 	fs = append(fs, &zvC35Family{Name: "n5_skeleton", M: 5, Listed: 5, Ws: wsSkel,
 		Pairs: [][2]int{{0, 1}, {0, 2}, {1, 2}, {2, 1}, {1, 3}, {2, 3}, {3, 4}, {2, 4}, {4, 0}, {3, 1}}})
+	// seven nodes: a chain with fan-outs at depth 3 and 4 and a few shortcuts
+	// (paths of four and five edges, several nodes extended from the same
+	// predecessor path)
+	wsDeep := []int{1}
+	if thorough {
+		wsDeep = []int{1, 2}
+	}
+	fs = append(fs, &zvC35Family{Name: "n7_deep_fanout", M: 7, Listed: 7, Ws: wsDeep,
+		Pairs: [][2]int{{0, 1}, {1, 2}, {2, 3}, {3, 4}, {3, 5}, {3, 6}, {4, 5}, {4, 6}, {0, 2}, {1, 3}, {2, 5}, {0, 6}}})
 	return fs
 }
 
@@ -403,7 +417,7 @@ func TestVerifC35(t *testing.T) {
 	r.Rule("every directed graph on n<=4 nodes with each ordered pair in {no edge} + weight set (quick {0,1,3}, thorough {0,1,2,3}); the same with self-loops for n<=3; " +
 		"graphs with an extra node that is an edge end point but not in the node list; 5 nodes with every ordered pair in {no edge, 1}; 5 nodes with a 10-edge skeleton, each in {no edge}+weights; " +
 		"x every listed node as source (the n=4 family of all graphs: first and last node; it is closed under renaming nodes). evaluations = (graph, source) pairs; non-trivial = some listed node is unreachable from the source, or a node's minimal distance is smaller than the weight of its direct edge from the source")
-	r.Require("source_with_unreachable_node", "shortest_beats_direct_edge", "zero_distance_to_other_node", "graph_with_edge_to_unlisted_node", "graph_with_selfloop", "unlisted_transit_would_shorten")
+	r.Require("source_with_unreachable_node", "shortest_beats_direct_edge", "zero_distance_to_other_node", "graph_with_edge_to_unlisted_node", "graph_with_selfloop", "unlisted_transit_would_shorten", "path_of_four_or_more_edges")
 	if r.IsReplay() {
 		var c zvC35Case
 		r.ReplayCase(&c)
@@ -414,7 +428,7 @@ func TestVerifC35(t *testing.T) {
 		var st zvC35Stats
 		zvC35One(r, &st, c.Family, g, c.Src)
 		st.flush(r)
-		for _, k := range []string{"source_with_unreachable_node", "shortest_beats_direct_edge", "zero_distance_to_other_node", "graph_with_edge_to_unlisted_node", "graph_with_selfloop", "unlisted_transit_would_shorten"} {
+		for _, k := range []string{"source_with_unreachable_node", "shortest_beats_direct_edge", "zero_distance_to_other_node", "graph_with_edge_to_unlisted_node", "graph_with_selfloop", "unlisted_transit_would_shorten", "path_of_four_or_more_edges"} {
 			r.Count(k, 1)
 		}
 		return
